@@ -332,6 +332,11 @@ class Incarnation:
             if op.get("pshuffle") and not op.get("pobj"):
                 vals = _shuffled_keys(vals, random.Random(op["pshuffle"]))  # same content, keys inserted in another order
             obj = self._build_params(vals, op.get("leaf", "float"), self.plan["params"][op["params"]].get("shocks_dtype", "float64"))
+            if op.get("pshuffle") and op["pshuffle"] % 3 == 0 and not op.get("pobj"):
+                # ... and the per-function entries as collections.OrderedDict (written in signature order, say)
+                import collections
+
+                obj = {k: (collections.OrderedDict(v) if isinstance(v, dict) and k != "shocks" else v) for k, v in obj.items()}
             self.params_objs[key] = obj
             # the caller keeps its own references to the nested containers it built
             self.params_refs[key] = {k: v for k, v in obj.items() if isinstance(v, dict)}
